@@ -150,8 +150,24 @@ C13_Checks(r) ==
                [] r.family = "with_name" -> {<<"C13.with_name", TRUE, C13_WithName(r.args, r.self, r.outs)>>}
                [] r.family = "with_suffix" -> {<<"C13.with_suffix", Ok(r.outs[1]), C13_WithSuffix(r.args, r.self, r.outs)>>})
 
+\* ---------------------------------------------------------------- C16
+C16_Checks(r) ==
+  (IF OutOk(r) /\ ~EncodedEntry(r) THEN
+      {<<"C16.lower_ascii", TRUE, C16_LowerAscii(r.out.ok)>>,
+       <<"C16.ipv6_canonical", Ok(r.out.ok.raw_host) /\ V(r.out.ok.raw_host) # None /\ Has(V(r.out.ok.raw_host)[1], COLON), C16_Ipv6Canonical(r.out.ok)>>}
+   ELSE {})
+  \cup (IF r.act = "with_host" /\ Has_(r, "self") /\ Netloc5(r.self) # <<>> THEN {<<"C16.with_host", TRUE, C16_HostArg(r.args.v, r.out)>>} ELSE {})
+  \cup (IF r.act = "build" /\ "host" \in DOMAIN r.args.kw /\ "encoded" \notin DOMAIN r.args.kw /\ "authority" \notin DOMAIN r.args.kw
+           /\ ~(OutOk(r) = FALSE /\ r.out.exc = "ValueError" /\ C16_ExpectedHost(r.args.kw.host) # None)      \* build may fail for other arguments
+        THEN {<<"C16.build_host", TRUE, C16_HostArg(r.args.kw.host, r.out)>>} ELSE {})
+  \cup (IF r.act = "ctor" THEN {<<"C16.nfkc", HasAny(r.args.s, NfkcDelims), C16_Nfkc(r.args.s, NfkcDelims, r.out)>>} ELSE {})
+  \cup (IF r.act = "ctor" /\ ~r.args.encoded THEN {<<"C16.ctor_ipv6", TRUE, C16_CtorHost(r.args.s, r.out)>>} ELSE {})
+  \cup (IF r.act = "with_host_self" /\ Has_(r, "self") /\ ~(OutOk(r) = FALSE /\ r.out.exc = "n/a")
+        THEN {<<"C16.selfhost." \o r.args.which, TRUE, C16_SelfHost(r.self, r.out)>>} ELSE {})
+
 Checks(r) ==
   CASE Prop = "C07" -> C07_Checks(r)
+    [] Prop = "C16" -> C16_Checks(r)
     [] Prop = "C13" -> C13_Checks(r)
     [] Prop = "C12" -> C12_Checks(r)
     [] Prop = "C10" -> C10_Checks(r)
@@ -223,6 +239,10 @@ Attribution(r) ==
   IF r.act \in {"cmp", "cmp3"} THEN (IF r.act = "cmp" /\ Trig_OrderingOnRawTuple(r) THEN {"Dev_OrderingOnRawTuple"} ELSE {}) ELSE
   (IF OutOk(r) THEN ObsAttribution(r.out.ok) ELSE {})
   \cup (IF Trig_JoinRootlessBase(r) THEN {"Dev_JoinRootlessBase"} ELSE {})
+  \* observation-based form of Dev_BracketedNonIPv6LosesBrackets: a stored host with ':' that is not an IPv6 address
+  \cup (IF OutOk(r) /\ "raw_host" \in DOMAIN r.out.ok /\ Ok(r.out.ok.raw_host) /\ V(r.out.ok.raw_host) # None
+           /\ Has(V(r.out.ok.raw_host)[1], COLON) /\ CanonIPv6Host(V(r.out.ok.raw_host)[1]) = <<>>
+        THEN {"Dev_BracketedNonIPv6LosesBrackets"} ELSE {})
   \* Dev_MakeChildClimbEatsRoot: '/' and joinpath with a '..' that climbs above the root (trigger only)
   \cup (IF r.act \in {"truediv", "joinpath"} /\ Has_(r, "self") /\ "parts" \in DOMAIN r.self /\ Ok(r.self.parts)
            /\ ClimbsAboveRoot(OldSegs(r.self) \o NewSegs(IF r.act = "truediv" THEN <<r.args.v>> ELSE r.args.vs))
